@@ -77,11 +77,11 @@ class C09(Prop):
                   "the C source on every run) and by running the real backend() loop (loopback TCP clients, console pipe, "
                   "virtual time, events of one poll delivered in scripted order by the interposed poller, scripted failing "
                   "tasks, master error_handler in three behaviours) on the same histories: traces must be identical; the "
-                  "Lean specification oracle (14 clauses, incl. `isolation`: a line at the head of a user's input is served within "
+                  "Lean specification oracle (15 clauses, incl. `sweep`: reset() / clean_up() of an object at most once per tick, and `isolation`: a line at the head of a user's input is served within "
                   "users + 2 iterations whatever the other users' commands do) judges every implementation trace.")
     level_note = ("trusted: Lean kernel; extract.py and the regex translator in props/c09.py; the correspondence harness "
                   "(differential; only generated histories); the oracle clauses heartbeats / commands / callouts / leak / "
-                  "refs / unexpected-shutdown / disconnect / hb-schedule / turns / isolation are judged on every trace but not proved "
+                  "refs / unexpected-shutdown / disconnect / hb-schedule / turns / isolation / sweep are judged on every trace but not proved "
                   "for all histories; memory errors inside arbitrary failing tasks, real signal delivery, the OS, the same "
                   "descriptor twice in one poll, the address-server pipe, LPC sockets, ed, exec(), get_char, the output side of "
                   "snoop (the scripted receive_snoop() ignores ordinary output), validity of the snoop_by / snoop_on pointers are not "
